@@ -67,6 +67,7 @@ def run_case(case, res):
     err = hooks.RandErr(cfg["errseed"], cfg["profile"], d, cfg["a"], cfg["b"])
     obs = Obs(res, cfg, err)
     c = dimwise.build(cfg, f, obs)
+    dimwise.maybe_prior_run(rng, c, cfg, err, res)
     dimwise.run(c, cfg, err)
     dimwise.maybe_restart(rng, c, cfg, err, obs, res)
     res.hash = dimwise.structure_digest(c)
